@@ -52,6 +52,20 @@ def run(tier, seed, replay):
     if ir["mismatches"]:
         v.violation("ctl:irstep", "instruction-register update / halt detection of one real clock edge differs from Micro.tla on %d of %d (word, bus byte) "
                     "pairs, e.g. %s" % (ir["mismatches"], ir["rows"], json.dumps(ir["first"][:3])), ir["first"])
+    # the graph is explored "from reset": the real resets must put the sequencer into the specification's reset control state
+    # (micro address 0, instruction register 0x02) whatever instruction was in flight
+    rcases = []
+    for irv in range(256):
+        for kind in ("cpu_reset", "master_reset"):
+            rcases.append({"pre": [{"op": "restore", "state": {"maddr": (irv * 2 + 1) % 512, "ir": irv, "lbr": irv, "prw": 3, "wait": True}}],
+                           "h": [{"op": kind}], "s": {"maddr": 0, "ir": 2, "prw": -1, "wait": False, "lbr": 0, "st": "Running"}})
+        rcases.append({"pre": [{"op": "restore", "state": {"maddr": (irv * 2 + 1) % 512, "ir": irv}}],
+                       "h": [{"op": "load", "image": [2, 2, 1], "ss": 16, "ps": -1}], "s": {"maddr": 0, "ir": 2, "st": "Running"}})
+    rres = vlib.replay_cases(rcases, "c09-reset")
+    if rres["mismatches"]:
+        f = rres["first"][0]
+        v.violation("ctl:reset", "after %s with IR=%s in flight the sequencer is not in the reset control state (micro address 0, IR 0x02): %s"
+                    % (f["case"]["h"][0]["op"], f["case"]["pre"][0]["state"]["ir"], f["diff"][:3]), f)
     # (3) the data-driven loops terminate: all operand pairs on the real machine
     md = vlib.vh_json(["muldiv-term"])
     for e in md:
@@ -60,7 +74,7 @@ def run(tier, seed, replay):
     cov = {
         "states": r.distinct + t.distinct, "transitions": r.generated + t.generated,
         "traces_validated_against_impl": d["rows"] + n["rows"] + ir["rows"],
-        "irstep_rows_compared": ir["rows"],
+        "irstep_rows_compared": ir["rows"], "reset_control_state_cases": rres["cases"],
         "samples": [{"decode_row_word_0x006_ir_0": dec[6][0]}, {"nextaddr_class": classes[-1], "ir": 16, "first_8": table[classes[-1]][16][:8]},
                     {"muldiv": md}],
         "exhaustive": True,
